@@ -751,6 +751,9 @@ void mmd_export_token_latex(DString * out, const char * source, token * t, scrat
 					break;
 
 				case 7:
+				default:
+					// There is nothing below a subparagraph -- deeper headers
+					// (base header level) still need their opening command
 					print_const("\\subparagraph{");
 					break;
 			}
